@@ -232,7 +232,7 @@ def run(rep, tier):
             "pc <= 1,000,000 and |imm| < 2^31", cites=("R05.f",)),
         Row("slice-end", r".", r"^Overflow\(Add\)\(\((\[T\]|slice\[T\]|Vec<T, A>)::as_ptr\((.*)\) as u64\),\((\[T\]|slice\[T\]|Vec<T, A>)::len\(\2\) as u64\)\)$", "A",
             "language guarantee: the end address of a live slice does not wrap"),
-        Row("packet-base", I + r"(::.*)?", r"^(precond:[\w:]+<-)?Overflow\(Add\)\(\((\[T\]|slice\[T\])::as_ptr\(&\*arg\d<&\[u8\]>\) as u64\),\(\((.*\.imm|arg\d<i32>) as u32\) as u64\)\)$", "A",
+        Row("packet-base", I + r"(::.*)?", r"^(precond:[\w:]+<-)?Overflow\(Add\)\(\((\[T\]|slice\[T\])::as_ptr\([^()]*\) as u64\),\(\((.*) as u32\) as u64\)\)$", "A",
             "assumption A-addr: slice addresses are below 2^63, so adding a 32-bit displacement cannot wrap"),
         Row("frame-pointer", I, r"^Overflow\((Sub|Add)\)\((?:array|tmp|mut)<\[u64; 11\]>\[10\],[^,]*Stack(UsageType|Frame|Usage)::", "A",
             "assumption A-addr: r10 is not writable by verified programs (C06) and stays within 8 * 65535 bytes of the stack top"),
